@@ -157,7 +157,7 @@ def _cols(draw, names, kinds):
 def _table(draw):
     delim = draw(st.sampled_from(DELIMS))
     t = draw(T.tables(kind="binary" if delim is None else "text", max_fields=5, max_rows=12, big_rows=300,
-                        allow_mixed_order=True))
+                        allow_mixed_order=True, sizes=True))
     return delim, t
 
 
